@@ -753,6 +753,10 @@ def _simple_arg(e: ast.expr) -> bool:
         return _simple_arg(e.operand)
     if isinstance(e, ast.Tuple):
         return all(_simple_arg(x) for x in e.elts)
+    if isinstance(e, ast.BinOp):
+        return _simple_arg(e.left) and _simple_arg(e.right)
+    if isinstance(e, ast.Slice):
+        return all(x is None or _simple_arg(x) for x in (e.lower, e.upper, e.step))
     return False
 
 
@@ -2342,6 +2346,30 @@ def _subclasses_of(trees, cname):
     return out
 
 
+class _DropZipStrict(ast.NodeTransformer):
+    """`zip(a, b, strict=..)` pairs the same elements as `zip(a, b)`; `strict` only adds an exception for inputs of unequal
+    length, which the properties' inputs do not have: the keyword is dropped so that rules and terms see one spelling."""
+    def visit_Call(self, n):
+        self.generic_visit(n)
+        if isinstance(n.func, ast.Name) and n.func.id == "zip" and any(k.arg == "strict" for k in n.keywords):
+            n.keywords = [k for k in n.keywords if k.arg != "strict"]
+        return n
+
+
+class _StarredDisplay(ast.NodeTransformer):
+    """`[*xs, a, b]` is `xs + [a, b]` and `[a, *xs]` is `[a] + xs` for a list xs (the rules and the reference formulas
+    spell the concatenation)."""
+    def visit_List(self, n):
+        self.generic_visit(n)
+        if isinstance(n.ctx, ast.Load) and len(n.elts) >= 2:
+            stars = [i for i, e in enumerate(n.elts) if isinstance(e, ast.Starred)]
+            if stars == [0] and isinstance(n.elts[0].value, ast.Name):
+                return ast.copy_location(ast.BinOp(left=n.elts[0].value, op=ast.Add(), right=ast.List(elts=n.elts[1:], ctx=ast.Load())), n)
+            if stars == [len(n.elts) - 1] and isinstance(n.elts[-1].value, ast.Name):
+                return ast.copy_location(ast.BinOp(left=ast.List(elts=n.elts[:-1], ctx=ast.Load()), op=ast.Add(), right=n.elts[-1].value), n)
+        return n
+
+
 class _DropAnnotations(ast.NodeTransformer):
     """`x: T = v` is `x = v` and a bare `x: T` is nothing: annotations on assignments carry no behaviour.  Applied to
     every tree (the pinned one too - it is not counted as a rewrite), so that no rule has to know both spellings."""
@@ -2361,11 +2389,154 @@ def _drop_redundant_pass(tree):
                 setattr(n, f, nb or [b[0]])
 
 
+def _attr_sequence(cls: ast.ClassDef) -> list:
+    """[(attribute, value node, 'class' | 'init')] in creation order, as recorded in known_functions.json `attr_order`"""
+    seq = []
+    for c in cls.body:
+        if isinstance(c, ast.Assign) and len(c.targets) == 1 and isinstance(c.targets[0], ast.Name):
+            seq.append((c.targets[0].id, c.value, "class"))
+        if isinstance(c, ast.FunctionDef) and c.name == "__init__":
+            nodes = [n for n in ast.walk(c) if isinstance(n, ast.Assign) and len(n.targets) == 1 and isinstance(n.targets[0], ast.Attribute)
+                     and isinstance(n.targets[0].value, ast.Name) and n.targets[0].value.id == "self"]
+            nodes.sort(key=lambda n: (n.lineno, n.col_offset))
+            seen = set()
+            for n in nodes:
+                if n.targets[0].attr not in seen:
+                    seen.add(n.targets[0].attr)
+                    seq.append((n.targets[0].attr, n.value, "init"))
+    return seq
+
+
+def rename_canonical_pass(trees: Dict[str, ast.Module], log: List[str]) -> None:
+    """V: private state and private functions that were RENAMED are renamed back to the names of the pinned tree.
+    Attributes: a class's pinned attribute that occurs nowhere in the program any more, while at the same place of the
+    creation sequence (class body, then first assignments in __init__) there is a new attribute with a value of the same
+    syntactic kind - and the numbers of vanished and of new attributes of the class agree.  Functions: a pinned method /
+    module-level function that is defined nowhere any more, and exactly one new function (same class / module level)
+    whose abstract shape is clearly the closest to the pinned one.  Without this every rule that speaks about
+    `self._probs` would have to discover the attribute's name anew."""
+    try:
+        d = json.load(open(os.path.join(VERIF, "known_functions.json")))
+    except Exception:
+        return
+    order = d.get("attr_order")
+    if not order:
+        return
+    lib = _library_method_names()
+    classes = {cls.name: (mod, cls) for mod, tree in trees.items() for cls in tree.body if isinstance(cls, ast.ClassDef)}
+
+    def family(name):
+        fam = {name} | _subclasses_of(trees, name)
+        todo = [name]
+        while todo:
+            c_ = todo.pop()
+            if c_ in classes:
+                for b_ in classes[c_][1].bases:
+                    bn = ast.unparse(b_).split(".")[-1]
+                    if bn in classes and bn not in fam:
+                        fam.add(bn)
+                        todo.append(bn)
+        return fam
+    known_attrs = d.get("class_attrs_assigned", {})
+    for cname, (mod, cls) in classes.items():
+        if cname not in order:
+            continue
+        fam = family(cname)
+        fam_nodes = [classes[c_][1] for c_ in fam if c_ in classes]
+        used_here = {n.attr for fc in fam_nodes for n in ast.walk(fc) if isinstance(n, ast.Attribute)}
+        pinned_here = {a for c_ in fam for a, _, _ in order.get(c_, [])} | {a for c_ in fam for a in known_attrs.get(c_, [])}
+        cur = _attr_sequence(cls)
+        cur_names = [x[0] for x in cur]
+        missing = [(a, v, k) for a, v, k in order[cname] if a not in used_here and a not in cur_names]
+        fresh = [(b, v, k) for b, v, k in cur if b not in pinned_here and b not in lib]
+        if not missing or len(missing) != len(fresh):
+            continue
+
+        def _kind(src_or_node):
+            try:
+                node = ast.parse(src_or_node, mode="eval").body if isinstance(src_or_node, str) else src_or_node
+            except Exception:
+                return None
+            return type(node).__name__
+        if not all(km == kf and (_kind(va) == _kind(vf) or _kind(va) in ("Constant", "Name") or _kind(vf) in ("Constant", "Name")) for (a, va, km), (b, vf, kf) in zip(missing, fresh)):
+            continue
+        ren = {b: a for (a, _, _), (b, _, _) in zip(missing, fresh)}
+        for fc in fam_nodes:
+            for n in ast.walk(fc):
+                if isinstance(n, ast.Attribute) and n.attr in ren:
+                    n.attr = ren[n.attr]
+            for c in fc.body:          # class-level spelling of the same attribute
+                if isinstance(c, ast.Assign) and len(c.targets) == 1 and isinstance(c.targets[0], ast.Name) and c.targets[0].id in ren:
+                    c.targets[0].id = ren[c.targets[0].id]
+        # other classes reach into the object too (`self._MPM._graph`): when the new name is nobody's pinned attribute, it
+        # can only mean this one - renamed program-wide
+        all_pinned = {a for seq in order.values() for a, _, _ in seq} | {a for lst in known_attrs.values() for a in lst}
+        wide = {b: a for b, a in ren.items() if b not in all_pinned}
+        if wide:
+            for tree in trees.values():
+                for n in ast.walk(tree):
+                    if isinstance(n, ast.Attribute) and n.attr in wide:
+                        n.attr = wide[n.attr]
+        for b, a in ren.items():
+            log.append(f"V {mod}: attribute `{cname}.{b}` is the pinned `{a}` under a new name: renamed back (in {sorted(fam)}{', and where others reach in' if b in wide else ''})")
+    # ---- functions
+    shapes = d.get("shapes", {})
+    vocab = set(d.get("functions", []))
+    from .pm import shape_tokens, shape_similarity
+    defined: Dict[str, int] = {}
+    for tree in trees.values():
+        for n in ast.walk(tree):
+            if isinstance(n, (ast.FunctionDef, ast.AsyncFunctionDef)):
+                defined[n.name] = defined.get(n.name, 0) + 1
+    fn_renames: Dict[str, str] = {}
+    groups = []       # (owner label, {name: node} of current top-level functions / methods of one class)
+    for mod, tree in trees.items():
+        groups.append((None, mod, {st.name: st for st in tree.body if isinstance(st, ast.FunctionDef)}))
+        for cls in tree.body:
+            if isinstance(cls, ast.ClassDef):
+                groups.append((cls.name, mod, {c.name: c for c in cls.body if isinstance(c, ast.FunctionDef)}))
+    module_level_pinned = {q for q in vocab if "." not in q}
+    all_module_level_now = {nm for owner, _m, fns in groups if owner is None for nm in fns}
+    for owner, mod, fns in groups:
+        if owner is None:
+            missing = [q for q in module_level_pinned if q not in defined]
+            fresh = [nm for nm in fns if nm not in vocab and nm not in lib]
+            keyf = lambda q: q
+        else:
+            pinned = {q.split(".", 1)[1] for q in vocab if q.startswith(owner + ".") and q.count(".") == 1}
+            pinned = {q[:-7] if q.endswith(".setter") else q for q in pinned}
+            missing = [m_ for m_ in pinned if m_ not in fns and not defined.get(m_)]
+            fresh = [nm for nm in fns if nm not in pinned and f"{owner}.{nm}" not in vocab and nm not in lib and not (nm.startswith("__") and nm.endswith("__"))]
+            keyf = lambda m_: f"{owner}.{m_}"
+        for m_ in missing:
+            ref = shapes.get(keyf(m_))
+            if not ref or len(ref) < 4:
+                continue
+            scored = sorted(((shape_similarity(ref, shape_tokens(fns[nm])), nm) for nm in fresh if nm not in fn_renames), reverse=True)
+            if scored and scored[0][0] >= 0.55 and (len(scored) == 1 or scored[0][0] - scored[1][0] >= 0.15) and defined.get(scored[0][1]) == 1:
+                fn_renames[scored[0][1]] = m_
+                log.append(f"V {mod}: function `{(owner + '.') if owner else ''}{scored[0][1]}` is the pinned `{m_}` under a new name ({int(scored[0][0] * 100)}% of its shape): renamed back")
+    if fn_renames:
+        for tree in trees.values():
+            for n in ast.walk(tree):
+                if isinstance(n, (ast.FunctionDef, ast.AsyncFunctionDef)) and n.name in fn_renames:
+                    n.name = fn_renames[n.name]
+                elif isinstance(n, ast.Attribute) and n.attr in fn_renames:
+                    n.attr = fn_renames[n.attr]
+                elif isinstance(n, ast.Name) and n.id in fn_renames:
+                    n.id = fn_renames[n.id]
+                elif isinstance(n, ast.alias) and n.name in fn_renames:
+                    n.name = fn_renames[n.name]
+
+
 def normalize_program(trees: Dict[str, ast.Module]) -> List[str]:
     log: List[str] = []
     for tree in trees.values():
         _DropAnnotations().visit(tree)
+        _DropZipStrict().visit(tree)
+        _StarredDisplay().visit(tree)
         ast.fix_missing_locations(tree)
+    rename_canonical_pass(trees, log)
     constants_and_noise_pass(trees, log)
     n = Normalizer(trees, load_vocabulary())
     n.log = log + n.log
